@@ -610,12 +610,12 @@ func NewResponse(res *http.Response, withBody bool) (*Response, error) {
 			return nil, err
 		}
 
-		br, err := mv.BodyReader(messageview.Decode())
+		body, err := readBody(mv, messageview.Decode())
 		if err != nil {
-			return nil, err
+			// The body cannot be decoded (e.g. it is not gzip data although
+			// the headers say so): log it as received instead of failing.
+			body, err = readBody(mv)
 		}
-
-		body, err := ioutil.ReadAll(br)
 		if err != nil {
 			return nil, err
 		}
@@ -624,6 +624,16 @@ func NewResponse(res *http.Response, withBody bool) (*Response, error) {
 		r.Content.Size = int64(len(body))
 	}
 	return r, nil
+}
+
+func readBody(mv *messageview.MessageView, opts ...messageview.Option) ([]byte, error) {
+	br, err := mv.BodyReader(opts...)
+	if err != nil {
+		return nil, err
+	}
+	defer br.Close()
+
+	return ioutil.ReadAll(br)
 }
 
 // Export returns the in-memory log.
